@@ -67,6 +67,12 @@ func main() {
 		rwMode(args)
 	case "oracle":
 		oracleMode(args)
+	case "c14":
+		c14Mode(args)
+	case "c13":
+		c13Mode(args)
+	case "c17":
+		c17Mode(args)
 	default:
 		fmt.Fprintln(os.Stderr, "unknown subcommand", cmd)
 		os.Exit(2)
